@@ -680,3 +680,22 @@ def long_lake_cases(seed, count, tag, bgraph=True):
                 steps += [dict(op="bgraph", g=0, m="kruskal"), dict(op="bgraph", g=0, m="boruvka")]
         steps.append(dict(op="drop", g=0))
         yield flow_case("%s-%d-%d" % (tag, seed, i), g, steps, timeout_ms=60000)
+
+
+def wide_history_cases(seed, tag, count=1, side=180):
+    """One object updated with several surfaces of tens of thousands of nodes and thousands of basins (a size no
+    whole-world contract evaluation affords, but equality of observations is linear): then a fresh object with
+    the last surface.  Scratch tables that are only partially reset between calls show here."""
+    rng = random.Random(seed)
+    for i in range(count):
+        g = gen.raster(side, side + rng.randint(0, 9), "rook", [gen.FV] * 4)
+        n = gen.grid_size(g)
+        ops = [gen.op_single(), gen.op_mst(rng.choice(["kruskal", "boruvka"]), rng.choice(["carve", "basic"]))]
+        zs = [dict(k="int", m=[rng.randrange(1000) for _ in range(n)], e=0) for _ in range(3)]
+        steps = [dict(op="new", g=0, ops=ops, via="")]
+        for z in zs:
+            steps.append(dict(op="update", g=0, z=z))
+        steps += [dict(op="new", g=1, ops=copy.deepcopy(ops), via=""), dict(op="update", g=1, z=zs[-1]),
+                  dict(op="update", g=0, z=zs[0]), dict(op="new", g=2, ops=copy.deepcopy(ops), via=""), dict(op="update", g=2, z=zs[0]),
+                  dict(op="drop", g=0), dict(op="drop", g=1), dict(op="drop", g=2)]
+        yield flow_case("%s-%d-%d" % (tag, seed, i), g, steps, timeout_ms=240000)
